@@ -100,7 +100,8 @@ def selftests(ctx):
     results = []
     for m in mine:
         d = None
-        rec = dict(mutant=m["id"], expect=m["expect"], fired=False, applied=False, violations=[])
+        rec = dict(mutant=m["id"], expect=m["expect"], fired=False, applied=False, violations=[],
+                   must_be_silent=bool(m.get("must_be_silent")))
         try:
             d = _scratch_copy()
             patch = os.path.join(VERIF, m["patch"])
@@ -123,6 +124,8 @@ def selftests(ctx):
             rec["violations"] = keys[:8]
             rec["fired"] = any(any(k.startswith(e) for e in m["expect"]) for k in keys)
             rec["fired_any"] = bool(keys)
+            if rec["must_be_silent"]:
+                rec["silent"] = not keys
         except Exception as e:
             rec["note"] = "self-test error: %s" % str(e)[:300]
         finally:
@@ -133,4 +136,7 @@ def selftests(ctx):
     ctx.info["selftest_summary"] = dict(mutants=len(results), applied=sum(1 for r in results if r["applied"]),
                                         fired_expected_rule=sum(1 for r in results if r["fired"]),
                                         expected_undetected=sum(1 for r in results if r["applied"] and not r["fired"]
-                                                                and not r["expect"]))
+                                                                and not r["expect"] and not r["must_be_silent"]),
+                                        refactors_silent=sum(1 for r in results if r.get("silent")),
+                                        refactors_false_alarm=sum(1 for r in results if r["must_be_silent"]
+                                                                  and r["applied"] and not r.get("silent", False)))
